@@ -71,7 +71,7 @@ func TestC06(t *testing.T) {
 	o := stopHistOpt()
 	var kinds []string
 	for _, k := range stopKinds {
-		if k != "cancel_dial" && k != "cancel_handshake" && k != "cancel_query" {
+		if k != "cancel_dial" && k != "cancel_handshake" && k != "cancel_query" && k != "handler_panic" {
 			kinds = append(kinds, k)
 		}
 	}
